@@ -43,7 +43,7 @@ impl Check for C01 {
             max_entries: tier.pick(40, 120),
             bulk_n: tier.pick(600, 4000),
             big_values: true,
-            rollback: 0,
+            rollback: 1,
             rollback_weight: 0,
             reopen_weight: 12,
             overlay_weight: 15,
